@@ -98,6 +98,22 @@ def check_linecol(soup, src, ctx):
             return fail('line-col', 'char_pos_to_line(%d) = %r, character %r stands at %r in %s'
                         % (i, tuple(got), src[i], exp, short(repr(src), 80)))
     ctx.count('offsets_checked', len(src))
+    # the conversion must not depend on the order of lookups: descending, a
+    # seeded shuffle, and "jump forward, then step back one" sequences
+    import random as _r
+    n = len(src)
+    orders = [range(n - 1, -1, -1)]
+    sh = list(range(n))
+    _r.Random(n).shuffle(sh)
+    orders.append(sh)
+    orders.append([j for i in range(n) for j in (min(i + 2, n - 1), i)] if n else [])
+    for order in orders:
+        for i in order:
+            got = soup.char_pos_to_line(i)
+            if tuple(got) != line_col(src, i):
+                return fail('line-col', 'char_pos_to_line(%d) = %r after other lookups, character %r stands at %r in %s'
+                            % (i, tuple(got), src[i], line_col(src, i), short(repr(src), 80)))
+    ctx.count('offsets_checked_in_other_orders', 4 * n)
     return None
 
 
